@@ -103,3 +103,23 @@ Theorem C05_matches_are_represented_for_all_histories : forall terms ops hs s p,
   exists r a, mr_sb r = sb /\ List.In (mr_id r) (ids s) /\ lookup_pat s' p sb = Ok (Some a) /\ eg_eq s' a (mr_root r) = Ok true.
 Proof. exact matches_are_represented_all_reachable. Qed.
 Print Assumptions C05_matches_are_represented_for_all_histories.
+
+(* third session, third round (EGraph/MultiPat{Uf,Diseq,State,Listed,Ren,Redirect,Defs,Sound,Union,Unify,Step*,Chk,Facts}.v, 19 files): the
+   MULTI-PATTERN matcher (repaired form, fix 3d0e524).  After every history over statically well-formed terms, every substitution
+   multi_ematch returns satisfies ALL equations of the multi-pattern: every variable is bound, each equation's node instantiated with the
+   bindings is found by the read-only lookup by an invocation EQUAL to the binding of its left variable, the final slot union-find fixes
+   every pattern slot (hence distinct pattern slots stay distinct), and matching changes nothing but the fresh counter.
+   MultiPatFacts.legacy_conclusion_fails: the conclusion FAILS for the pinned behaviour on the witness of C05_legacy_multi_ematch_refuted -
+   the fix is what makes it true. *)
+From SE Require Import EGraph.MultiPat EGraph.MultiPatDefs EGraph.MultiPatFacts.
+Theorem C05_multi_pattern_matches_satisfy_all_equations : forall terms ops hs s pat, List.Forall term_static terms ->
+  run_ops terms ops [] empty_egraph = Ok (hs, s) -> mp_arity pat -> mp_below (Model.ctr s) pat ->
+  forall l s', multi_ematch true pat s = Ok (l, s') ->
+  (unionfind s' = unionfind s /\ classes s' = classes s /\ hashcons s' = hashcons s /\ pending s' = pending s /\ (Model.ctr s <= Model.ctr s')%N) /\
+  forall sb, List.In sb l -> exists st, sb = ms_subst st /\ ps_fixed pat st /\
+    forall v nd ch, List.In (v, nd, ch) pat ->
+      (sub_get sb v <> None /\ forall cv, List.In cv ch -> sub_get sb cv <> None) /\
+      exists a c, sub_get sb v = Some a /\
+        lookup_pat s' (PNode nd (List.map PVarP ch)) sb = Ok (Some c) /\ eg_eq s' c a = Ok true.
+Proof. exact multi_matches_satisfy_equations_reachable. Qed.
+Print Assumptions C05_multi_pattern_matches_satisfy_all_equations.
